@@ -1,4 +1,4 @@
-package main
+package hc
 
 // Independent geometry used by the oracles: decoding of the raw path data array, exact-formula
 // evaluation of segments (Bernstein form; SVG 1.1 appendix F.6 centre parametrisation for arcs),
@@ -23,11 +23,11 @@ func (a P2) Cross(b P2) float64 { return a.X*b.Y - a.Y*b.X }
 func (a P2) Dot(b P2) float64   { return a.X*b.X + a.Y*b.Y }
 
 type Seg struct {
-	Kind       byte // 'M','L','Q','C','A','Z'
-	P0, P1, P2, P3 P2 // start, controls, end (end is the last used)
-	Rx, Ry, Phi float64
-	Large, Sweep bool
-	End        P2
+	Kind           byte // 'M','L','Q','C','A','Z'
+	P0, P1, P2, P3 P2   // start, controls, end (end is the last used)
+	Rx, Ry, Phi    float64
+	Large, Sweep   bool
+	End            P2
 }
 
 // Decode splits raw path data into segments, validating the framing. ok=false if malformed.
@@ -82,8 +82,8 @@ func Decode(d []float64) (segs []Seg, err error) {
 	return segs, nil
 }
 
-// arcCenter implements SVG 1.1 F.6.5 (with F.6.6 radii correction). Returns centre, theta1, dtheta, rx, ry.
-func arcCenter(s Seg) (c P2, th1, dth, rx, ry float64) {
+// ArcCenter implements SVG 1.1 F.6.5 (with F.6.6 radii correction). Returns centre, theta1, dtheta, rx, ry.
+func ArcCenter(s Seg) (c P2, th1, dth, rx, ry float64) {
 	rx, ry = math.Abs(s.Rx), math.Abs(s.Ry)
 	sin, cos := math.Sincos(s.Phi)
 	dx, dy := (s.P0.X-s.End.X)/2, (s.P0.Y-s.End.Y)/2
@@ -133,7 +133,7 @@ func (s Seg) At(t float64) P2 {
 		a, b, c, d := u*u*u, 3*u*u*t, 3*u*t*t, t*t*t
 		return P2{a*s.P0.X + b*s.P1.X + c*s.P2.X + d*s.End.X, a*s.P0.Y + b*s.P1.Y + c*s.P2.Y + d*s.End.Y}
 	case 'A':
-		c, th1, dth, rx, ry := arcCenter(s)
+		c, th1, dth, rx, ry := ArcCenter(s)
 		th := th1 + dth*t
 		sin, cos := math.Sincos(s.Phi)
 		ex, ey := rx*math.Cos(th), ry*math.Sin(th)
@@ -153,7 +153,7 @@ func SampleSeg(s Seg, n int) []P2 {
 	return out
 }
 
-func distPointSeg(p, a, b P2) float64 {
+func DistPointSeg(p, a, b P2) float64 {
 	ab := b.Sub(a)
 	l2 := ab.Dot(ab)
 	if l2 == 0 {
@@ -168,20 +168,20 @@ func distPointSeg(p, a, b P2) float64 {
 	return p.Dist(a.Add(ab.Mul(t)))
 }
 
-func distPointPolyline(p P2, pl []P2) float64 {
+func DistPointPolyline(p P2, pl []P2) float64 {
 	best := math.Inf(1)
 	if len(pl) == 1 {
 		return p.Dist(pl[0])
 	}
 	for i := 0; i+1 < len(pl); i++ {
-		if d := distPointSeg(p, pl[i], pl[i+1]); d < best {
+		if d := DistPointSeg(p, pl[i], pl[i+1]); d < best {
 			best = d
 		}
 	}
 	return best
 }
 
-func polylineLen(pl []P2) float64 {
+func PolylineLen(pl []P2) float64 {
 	l := 0.0
 	for i := 0; i+1 < len(pl); i++ {
 		l += pl[i].Dist(pl[i+1])
@@ -201,7 +201,7 @@ func Subpaths(segs []Seg) [][]Seg {
 	return out
 }
 
-func dataHex(d []float64) string {
+func DataHex(d []float64) string {
 	var sb strings.Builder
 	for i, f := range d {
 		if i > 0 {
